@@ -41,7 +41,7 @@ def jobs(tier):
     out = []
     temps = ["t_macro_sub", "t_alias_macro"] if q else list(SYM)
     for t in temps:
-        shrink = _window(t, tier, SYM[t][:1] if q else SYM[t], 1 if q else 2)
+        shrink = _window(t, tier, SYM[t][:1] if q else SYM[t], 1)
         step = 4 if q else 2
         for lo in range(0, len(ORDERS), step):
             hi = min(len(ORDERS), lo + step)
@@ -50,7 +50,7 @@ def jobs(tier):
                 continue
             out.extend(tjobs(f"{H}:c10_order", t, tier, shrink=shrink, fixed=dict({"mask": 1, "o1": 0}, **({"o0": 1} if q else {})),
                              extra_params=[("order", "int"), ("twice", "int")] + ([] if q else [("o0", "int")]),
-                             extra_pre=[f"{lo} <= order < {hi}", "0 <= twice < 2" if q else "0 <= twice < 4"] + ([] if q else ["0 <= o0 <= 2"]),
+                             extra_pre=[f"{lo} <= order < {hi}", "0 <= twice < 2"] + ([] if q else ["0 <= o0 <= 1"]),
                              name=f"c10_order_{t}_{lo}", base="c10_order", functions=FUNCS, timeout=400 if q else 1800,
                              note=f"{t}: pass sequences ORDERS[{lo}:{hi}], one position applied twice (idempotence), override of the first constant; "
                                   "oracle: meaning == reference (subcircuits expanded iff expand_subcircuits applied), result generates and re-parses to the same meaning"))
